@@ -81,6 +81,21 @@ Definition ds2f_median_model (agg : list Z -> Z) (x : arr) (f1 f2 dim1 dim2 : Z)
 Definition block_downsample_model (agg : list Z -> Z) (x : arr) (nchans nsamps ffactor tfactor : Z) (i j : Z) : Z :=
   let '(f1, f2) := block_downsample_factors ffactor tfactor in ds2_model agg x nchans nsamps f1 f2 i j.
 
+(** TimeSeries.downsample: the data of the returned series, composed as the call site does it (the shortcut test and
+    the factor handed to stats.downsample_1d are regenerated from timeseries.py): the series itself when the shortcut
+    applies, otherwise stats.downsample_1d(self.data, factor, method) -- the mean kernel resp. the NumPy median path *)
+Definition ts_downsample_rejects (nsamples factor : Z) : bool :=
+  if ts_downsample_returns_self factor then false else ds1_rejects nsamples (ts_downsample_factor_arg factor).
+Definition ts_downsample_mean_model (divcast : Z -> Z -> Z) (nsamples : Z) (junk data : arr) (factor : Z) : arr :=
+  if ts_downsample_returns_self factor then data
+  else ds1_mean_call divcast nsamples junk data (ts_downsample_factor_arg factor).
+Definition ts_downsample_median_model (agg : list Z -> Z) (data : arr) (nsamples factor : Z) : arr :=
+  if ts_downsample_returns_self factor then data
+  else ds1_median_model agg data nsamples (ts_downsample_factor_arg factor).
+(** number of samples of the result (header nsamples = len of the decimated array; the mean kernel allocates len // factor) *)
+Definition ts_downsample_len (nsamples factor : Z) : Z :=
+  if ts_downsample_returns_self factor then nsamples else ds1_median_len nsamples (ts_downsample_factor_arg factor).
+
 (** * Aggregates used by the correspondence run *)
 (** "true division then cast" instances of the hook [divcast]: the exact numerator (compared with out * factor for the
     floating dtypes) and the truncating store into uint8 *)
